@@ -627,7 +627,27 @@ def mode_copy_rule(ctx, rule, why):
                     blocks[id(h.body)] = pairs
     sets = [frozenset((a, k) for a, k, _, _ in pr) for pr in blocks.values()]
     s_ = site(f)
-    ctx.check(rule, f'{s_} {len(sets)} copy blocks agree', len(sets) >= 2 and len(set(sets)) == 1, key(f, 'mode-copy-agree'),
+    # (two blocks on the reference tree: the request already blocked for its mode, and - through the AttributeError handler - the
+    # request not blocked at all; one block under the disjunction of the two conditions is the same thing)
+    # both situations are covered: where the copies happen, taken together, mentions the NOMODE reasons and the absence of any
+    # reason (the AttributeError handler, or a hasattr test)
+    from ..dataflow import local_defs as _ld
+    fdefs = _ld(f.node)
+    where = []
+    for pr in blocks.values():
+        st0 = pr[0][3]
+        for c in holds_at(st0):
+            try:
+                where.append(ast.unparse(through_locals(ast.parse(c, mode='eval').body, fdefs)))
+            except SyntaxError:
+                where.append(c)
+        p_ = getattr(st0, '_parent', None)
+        while p_ is not None and not isinstance(p_, (ast.FunctionDef, ast.ExceptHandler)):
+            p_ = getattr(p_, '_parent', None)
+        if isinstance(p_, ast.ExceptHandler) and p_.type is not None and 'AttributeError' in ast.unparse(p_.type):
+            where.append('except AttributeError')
+    covered = any('BLOCKING_NOMODE' in w for w in where) and any('AttributeError' in w or 'hasattr' in w for w in where)
+    ctx.check(rule, f'{s_} {len(sets)} copy blocks agree', len(sets) >= 1 and len(set(sets)) == 1 and covered, key(f, 'mode-copy-agree'),
               f'the blocks that copy the selected mode onto the request do not assign the same fields: {why}',
               ' | '.join(str(sorted(x ^ sets[0])) for x in sets[1:]) if sets else '')
     need = {('offset_db', 'equalization_offset_db'), ('penalties', 'penalties'), ('baud_rate', 'baud_rate'), ('OSNR', 'OSNR'),
